@@ -10,6 +10,7 @@ mod seams;
 mod streams_model;
 mod val;
 mod driver;
+mod min;
 
 #[global_allocator]
 static ALLOC: seams::CountingAlloc = seams::CountingAlloc;
